@@ -279,6 +279,7 @@ func Run(r *ev.Run) {
 	for _, j := range jobs {
 		want += int64(j.n)
 	}
+	want -= r.Counter("inputs_abandoned_after_repeated_stops")
 	r.RequireAtLeast("inputs_total", want*9/10)
 
 	if HandlerLayer != nil && sel == "" {
@@ -368,6 +369,13 @@ func (m *monitor) runChunk(t *target, chunk, n int) {
 	func() {
 		defer func() {
 			if p := recover(); p != nil {
+				// building the valid artefacts runs Acra's own protect path on well-formed data: a panic inside Acra
+				// there is a crash of real code as well
+				if pi := describePanic(p); pi.Fn != "" && !pi.Shim {
+					r.Violation(fmt.Sprintf("panic target=%s fn=%s class=%s", t.name, pi.Fn, pi.Class),
+						map[string]interface{}{"where": "while building the valid artefacts of this target (generator side)", "panic": pi.Msg, "frames": pi.Frames, "seed": r.Seed, "chunk": chunk})
+					return
+				}
 				r.Violation("infrastructure: generator panic target="+t.name, fmt.Sprint(p))
 			}
 		}()
@@ -384,7 +392,16 @@ func (m *monitor) runChunk(t *target, chunk, n int) {
 	}
 	defer os.Remove(batch)
 	from := 0
+	cpuStops, fatals := 0, 0
 	for attempt := 0; from < len(ins); attempt++ {
+		// circuit breaker: a decoder that keeps hanging or dying has been reported already; the rest of the chunk would
+		// only cost 10 s of CPU (or a process start) per input
+		if cpuStops >= 4 || fatals >= 12 {
+			left := len(ins) - from
+			r.Count("inputs_abandoned_after_repeated_stops", int64(left))
+			r.Inconclusive(fmt.Sprintf("target %s chunk %d: %d inputs not run after %d CPU-limit stops and %d fatal exits in this chunk", t.name, chunk, left, cpuStops, fatals))
+			break
+		}
 		journal := fmt.Sprintf("%s.j%d", base, attempt)
 		errPath := fmt.Sprintf("%s.e%d", base, attempt)
 		t0 := time.Now()
@@ -407,6 +424,7 @@ func (m *monitor) runChunk(t *target, chunk, n int) {
 		k := last.started
 		switch {
 		case last.cpuStop && last.cpuAlloc > t.allocLimit(len(ins[k].data)):
+			cpuStops++
 			// the CPU went into touching an allocation beyond the bound: an allocation finding, not a CPU one
 			_, fn, _ := classifyFatal("goroutine 1 [running]:\n" + afterGoroutine1(string(stderrB)))
 			if fn == "" {
@@ -419,6 +437,7 @@ func (m *monitor) runChunk(t *target, chunk, n int) {
 				"allocated_bytes_when_stopped": last.cpuAlloc, "cpu_us_when_stopped": last.cpuUsed, "bound_bytes": t.allocLimit(len(ins[k].data)), "stacks": tail(string(stderrB), 4000)}))
 			r.SetAdd("alloc_sites", fn)
 		case last.cpuStop:
+			cpuStops++
 			m.mu.Lock()
 			m.st(t).CPUStop++
 			m.mu.Unlock()
@@ -426,6 +445,7 @@ func (m *monitor) runChunk(t *target, chunk, n int) {
 		case wallKilled:
 			r.Inconclusive(fmt.Sprintf("wall-clock watchdog (%s) killed the child of target %s at chunk %d index %d (class %s)", m.wallMax, t.name, chunk, k, ins[k].class))
 		default:
+			fatals++
 			class, fn, shim := classifyFatal(string(stderrB))
 			m.mu.Lock()
 			s := m.st(t)
